@@ -91,8 +91,16 @@ def run(ctx):
     eqs = [c for c in cs if c[1].endswith("::eq") and "Entry::name(" in c[2][0]]
     compared = " ".join(c[2][1] for c in eqs)
     dec = [c for c in cs if c[1] == SN + "decode"]
+    # second form: membership of the entry name in an array of reserved names, `[A, B, ..].contains(&entry.name())`
+    memb = [c for c in cs if c[1].endswith("<impl [T]>::contains") and len(c[2]) == 2 and "Entry::name(" in c[2][1]]
     for cname_, k in sorted(consts.items()):
         lit = k["lit"]
+        inm = [c for c in memb if ("s:%r" % lit) in c[2][0] or lit in c[2][0]]
+        if inm and dec:
+            g = any(tr is False and re.search(r"call@%d:|<impl \[T\]>::contains\(" % inm[0][0], e) for (e, tr, gg) in S.bool_facts_at(dec[0][0]))
+            ctx.check(g, R2, "listing skips %s" % cname_, "member of the reserved-name array; yield on the `not contained` edge",
+                      "the decode/yield path is not on the false edge of the reserved-name membership test for %s" % cname_, f.loc(), fn=f.name, key="%s|%s" % (R2, cname_))
+            continue
         ok = ("s:%r" % lit) in compared or (lit in compared)
         ctx.check(ok, R2, "listing skips %s" % cname_, "", "Streams::next does not compare entry names with %s (%r): the stream shows up in the listing" % (cname_, lit),
                   f.loc(), fn=f.name, key="%s|%s" % (R2, cname_))
@@ -169,32 +177,49 @@ def b64_tables(ctx, rule="B64-TABLE"):
     ctx.rule(rule, "to_b64/from_b64 are mutually inverse tables over 0..63 ('0'-'9' 0.., 'A'-'Z' 10.., 'a'-'z' 36.., '.' 62, '_' 63); encode emits 0x3800 + (v2 << 6) + v1 for a "
                    "pair and 0x4800 + v for a single; decode recognises exactly the half-open ranges 0x3800..0x4800 (pair: low six bits first, then >> 6) and 0x4800..0x4840 "
                    "(single), subtracting the same bases; the table marker is U+4840")
+    from ..lib import affine, interval_of
+    # to_b64 as a piecewise table: (interval of the character, value as offset from the character or constant)
     f = prog.fn(SN + "to_b64")
     S = Sym(prog, f)
-    rets = []
+    pieces = []
+    undec = []
     for bl in f.blocks:
         if bl["cleanup"]:
             continue
         for s in bl["stmts"]:
             r = s["rhs"]
             if s["lhs"]["l"] == 0 and r["rv"] == "agg" and r.get("variant") == "Some":
-                guard = [(e, tr) for (e, tr, g) in S.bool_facts_at(bl["id"])][-1:]
-                rets.append((S.val(r["ops"][0]), guard[0][0] if guard else ""))
-    want = [("((p1 as u32) Sub! (c:48 as u32)).0", "is_ascii_digit"), ("((c:10 Add! (p1 as u32)).0 Sub! (c:65 as u32)).0", "is_ascii_uppercase"),
-            ("((c:36 Add! (p1 as u32)).0 Sub! (c:97 as u32)).0", "is_ascii_lowercase"), ("c:62", "(p1 Eq c:46)"), ("c:63", "(p1 Eq c:95)")]
-    ok = len(rets) == 5 and all(any(v == wv and wg in g for (v, g) in rets) for (wv, wg) in want)
-    ctx.check(ok, rule, "to_b64 table", "", "to_b64 maps %s; expected digits->0.., upper->10.., lower->36.., '.'->62, '_'->63" % rets, f.loc(), fn=f.name, key=rule + "|to_b64")
+                lo, hi, ex = interval_of(S.bool_facts_at(bl["id"]), "p1")
+                av = affine(S.val(r["ops"][0]), "p1")
+                if av is None:
+                    undec.append(S.val(r["ops"][0]))
+                pieces.append((lo, hi, av))
+    want = {(48, 57, (1, -48)), (65, 90, (1, -55)), (97, 122, (1, -61)), (46, 46, (0, 62)), (95, 95, (0, 63))}
+    got = set(pieces)
+    ctx.check(got == want, rule, "to_b64 table", "", "to_b64 maps %s (character interval, value as a*ch+b); expected digits->0.., upper->10.., lower->36.., '.'->62, '_'->63" % sorted(got, key=str),
+              f.loc(), fn=f.name, key=rule + "|to_b64")
     f = prog.fn(SN + "from_b64")
     S = Sym(prog, f)
     cs = symcalls(prog, f, S)
-    fu = sorted(a[0] for b, n, a, t in cs if n.endswith("char::from_u32"))
-    lts = sorted(S.val(s["rhs"]["ops"][1]) for bl in f.blocks if not bl["cleanup"] for s in bl["stmts"] if s["rhs"]["rv"] == "bin" and s["rhs"]["op"] == "Lt" and not s["sp"].get("exp")
-                 and S.val(s["rhs"]["ops"][0]) == "p1")
-    consts = sorted(S.val(o) for bl in f.blocks if not bl["cleanup"] for s in bl["stmts"] if s["lhs"]["l"] == 0 and s["rhs"]["rv"] == "use" for o in s["rhs"]["ops"] if o.get("k") == "const")
-    eq62 = any(s["rhs"]["rv"] == "bin" and s["rhs"]["op"] == "Eq" and [S.val(o) for o in s["rhs"]["ops"]] == ["p1", "c:62"] for bl in f.blocks for s in bl["stmts"])
-    ok = fu == sorted(["(p1 Add! (c:48 as u32)).0", "((p1 Sub! c:10).0 Add! (c:65 as u32)).0", "((p1 Sub! c:36).0 Add! (c:97 as u32)).0"]) and \
-        [x for x in lts if x in ("c:10", "c:36", "c:62")] == ["c:10", "c:36", "c:62"] and consts == ["c:46", "c:95"] and eq62
-    ctx.check(ok, rule, "from_b64 table", "", "from_b64 computes %s with thresholds %s and constants %s; it is not the inverse of to_b64" % (fu, lts, consts), f.loc(), fn=f.name, key=rule + "|from_b64")
+    pieces = set()
+    for b, n, a, t in cs:
+        if n.endswith("char::from_u32"):
+            lo, hi, ex = interval_of(S.bool_facts_at(b), "p1")
+            pieces.add((lo if lo is not None else 0, hi, affine(a[0], "p1")))
+    consts = []
+    for bl in f.blocks:
+        if bl["cleanup"]:
+            continue
+        for s in bl["stmts"]:
+            if s["lhs"]["l"] == 0 and s["rhs"]["rv"] == "use" and s["rhs"]["ops"][0].get("k") == "const" and "int" in s["rhs"]["ops"][0] and not s["lhs"]["p"]:
+                lo, hi, ex = interval_of(S.bool_facts_at(bl["id"]), "p1")
+                consts.append((lo, hi, tuple(sorted(ex)), s["rhs"]["ops"][0]["int"]))
+    wantp = {(0, 9, (1, 48)), (10, 35, (1, 55)), (36, 61, (1, 61))}
+    dot = [c for c in consts if c[3] == 46 and c[0] == 62 and c[1] == 62]
+    und = [c for c in consts if c[3] == 95 and (c[0] is None or c[0] >= 62) and (c[1] is None or c[1] >= 63)]
+    ok = pieces == wantp and len(consts) == 2 and len(dot) == 1 and len(und) == 1
+    ctx.check(ok, rule, "from_b64 table", "", "from_b64 maps %s with constants %s (value interval, result as a*v+b); it is not the inverse of to_b64" % (sorted(pieces, key=str), consts),
+              f.loc(), fn=f.name, key=rule + "|from_b64")
     f = prog.fn(SN + "encode")
     S = Sym(prog, f)
     cs = symcalls(prog, f, S)
